@@ -130,9 +130,18 @@ def union_refs(sr, a, b, axa, axb):
     return ra, rb
 
 
+P_LIB_CONJ = 0.2
+_conj_rng = __import__("random").Random(12345)
+
+
 def conj_index(sr, ix):
-    """Conjugate of an unfused index built by the harness (fused: use the library's)."""
+    """Conjugate of an index. Usually a fresh harness-built index; in a share of the calls the
+    library's own `ix.conj()` taken AFTER the index has been used as a cache key (its memoised
+    hash key exists), as happens when a tensor is built on the legs of an earlier result."""
     if ix.subinfo is None:
+        if P_LIB_CONJ and _conj_rng.random() < P_LIB_CONJ:
+            ix.hashkey()
+            return ix.conj()
         return sr.BlockIndex(dict(ix.chargemap), dual=not ix.dual)
     return ix.conj()
 
